@@ -218,6 +218,11 @@ func verifC07FlushVsReplica() {
 	for _, a := range out.acks {
 		verifAssert(a <= stored, "the log is never acknowledged beyond the sequence stored with flushed data")
 	}
+	// a replicator that registers now (rebuilt after a stop) is told the persisted sequence at once:
+	// it must not be ahead of what is stored with flushed data either
+	f.AckSequence(1, func(s int64) {
+		verifAssert(s <= stored, "a newly registered acknowledgement callback is never told a sequence beyond the stored one")
+	})
 	// after a restart an entry at or below the stored sequence is rejected, a later one accepted
 	// (the family is reopened by the real constructor from the sequences stored with the kv version)
 	f2 := verifReopenFamily(out, stored)
